@@ -340,14 +340,18 @@ def _feeding_calls(b, fb, vars_, op, want):
                     push_op(a)
             else:
                 r = d[3]["r"]
-                for k in ("x", "a", "b"):
-                    if isinstance(r.get(k), dict):
-                        push_op(r[k])
+                for k, v_ in r.items():
+                    if isinstance(v_, dict) and v_.get("k") in ("copy", "move"):
+                        push_op(v_)
+                    elif isinstance(v_, list):
+                        for f in v_:
+                            if isinstance(f, dict):
+                                push_op(f)
                 if isinstance(r.get("p"), dict):
                     work.append(r["p"]["l"])
-                for f in r.get("fields", []) or []:
-                    if isinstance(f, dict):
-                        push_op(f)
+                    for e in r["p"].get("proj", []):
+                        if isinstance(e, dict) and "i" in e:
+                            work.append(e["i"])
     return out
 
 
